@@ -1,14 +1,17 @@
 package chainenv
 
 import (
-	"runtime"
-	"sync"
 	"bytes"
 	"encoding/hex"
 	"fmt"
+	"github.com/33cn/chain33/blockchain"
 	"os"
+	"runtime"
 	"sort"
 	"strings"
+	"sync"
+	"sync/atomic"
+	"time"
 
 	"github.com/33cn/chain33/types"
 	"verifharness/node"
@@ -16,6 +19,7 @@ import (
 
 // RunResult is what one delivery-order run observed.
 type RunResult struct {
+	Held        int      // deliveries held at the orphan delay point
 	Order       []int    `json:"order"`
 	Snap        *Snap    `json:"-"`
 	Orphans     int      `json:"orphans"`
@@ -49,6 +53,7 @@ type RunOpts struct {
 	CheckSeqEachStep bool
 	WithDB           bool
 	Conc             int // >1: the order is dealt round-robin to Conc goroutines which deliver concurrently (as the module's per-message goroutines do)
+	ConcTail         int // 2: orphan-drain schedule over the last two entries of the order (see RunOrderOn)
 	NodeOpts         func(o *node.Options)
 }
 
@@ -82,6 +87,11 @@ func RunOrderOn(n *node.Node, t *Tree, order []int, o RunOpts) *RunResult {
 				for k := g; k < len(order); k += o.Conc {
 					i := order[k]
 					b := t.Block(i)
+					// injected delay (deterministic per position): lets a delivery start while another goroutine is
+					// still connecting the parent or draining the orphan pool
+					if j := (k*7 + i*13 + len(order)) % 5; j > 0 {
+						time.Sleep(time.Duration(j) * 700 * time.Microsecond)
+					}
 					bc := o.Broadcast
 					if o.MixFlavour {
 						bc = (k+i)%2 == 0
@@ -130,6 +140,11 @@ func RunOrderOn(n *node.Node, t *Tree, order []int, o RunOpts) *RunResult {
 		<-mdone
 		order = nil
 	}
+	var tail []int
+	if o.ConcTail > 0 && o.ConcTail < len(order) && o.Conc <= 1 {
+		tail = order[len(order)-o.ConcTail:]
+		order = order[:len(order)-o.ConcTail]
+	}
 	for k, i := range order {
 		b := t.Block(i)
 		bc := o.Broadcast
@@ -155,6 +170,42 @@ func RunOrderOn(n *node.Node, t *Tree, order []int, o RunOpts) *RunResult {
 			}
 			lastSeq = ls
 		}
+	}
+	if len(tail) == 2 {
+		// orphan-drain schedule: tail[1] (the held block, whose parent still waits in the orphan pool) is delivered
+		// first and held at the delay point between "parent unknown" and "park in the orphan pool" until its parent
+		// has been connected; tail[0] (the missing first block) is delivered meanwhile and drains the pool. The hold is
+		// a scheduling delay between two critical sections, which the module's per-message goroutines can suffer.
+		hold := t.Block(tail[1])
+		parked := make(chan struct{})
+		var once sync.Once
+		var armed atomic.Bool
+		armed.Store(true)
+		blockchain.VerifSetDelayHook(func(point string, height int64) {
+			if point != "orphan-before-add" || height != hold.Height || !armed.CompareAndSwap(true, false) {
+				return
+			}
+			once.Do(func() { close(parked) })
+			for spin := 0; spin < 20000 && n.Chain.GetBlockHeight() < hold.Height-1; spin++ {
+				time.Sleep(500 * time.Microsecond)
+			}
+			res.Held++
+		})
+		done := make(chan error, 1)
+		go func() { done <- n.Deliver(hold, o.Broadcast, "peer1") }()
+		select {
+		case <-parked:
+		case err := <-done:
+			done <- err
+		case <-time.After(10 * time.Second):
+		}
+		if err := n.Deliver(t.Block(tail[0]), o.Broadcast, "peer0"); err != nil && err != types.ErrBlockExist {
+			res.Errs = append(res.Errs, fmt.Sprintf("tail deliver block %d: %v", tail[0], err))
+		}
+		if err := <-done; err != nil && err != types.ErrBlockExist {
+			res.Errs = append(res.Errs, fmt.Sprintf("held deliver block %d (h=%d): %v", tail[1], hold.Height, err))
+		}
+		blockchain.VerifSetDelayHook(nil)
 	}
 	res.Snap = TakeSnap(n, txs, addrs, o.WithDB)
 	for _, s := range res.Snap.Seqs {
